@@ -96,6 +96,9 @@ class Operator(Token):
                     isinstance(t, Parenthesis) and t.has_end
             ) or (isinstance(t, Operator) and t.name == '%')):
                 raise TokenError()
+        elif self.name in (' ', ':') and tokens and isinstance(
+                tokens[-1], Operator) and tokens[-1].name == '%':
+            raise TokenError()  # A percentage is no reference.
         super(Operator, self).ast(tokens, stack, builder)
         self.update_name(tokens, stack)
         pred = self.pred
